@@ -95,6 +95,9 @@ func stGenAssign(r *fw.Rand) (string, stExp, bool) {
 func stGenModify(r *fw.Rand) (string, stExp, bool) {
 	v := stGenValue(r)
 	cn := r.Pick(stCJK)
+	if r.P(1, 4) {
+		cn = cn + ":" + r.Pick(stCJK) // namespaced names take every modification spelling too
+	}
 	paren := strings.HasSuffix(v.text, ")")
 	switch r.Intn(8) {
 	case 0:
@@ -167,7 +170,7 @@ func c18Case(w *fw.W, idx int, r *fw.Rand) {
 			if next[0] < 0x80 && next[0] != '\'' && !strings.ContainsAny(sep, ", ") {
 				sep = " "
 			}
-			if strings.HasPrefix(next, "&") && !strings.Contains(sep, ",") {
+			if strings.HasPrefix(next, "&") && !strings.Contains(sep, ",") && modify {
 				sep = ","
 			}
 			if strings.HasPrefix(next, "'") && sep == "" {
@@ -179,7 +182,9 @@ func c18Case(w *fw.W, idx int, r *fw.Rand) {
 	desc := fmt.Sprintf("src=%q", src)
 	w.Begin(idx, desc)
 	var got []stExp
-	cfg := Cfg{Seed: r.U64() | 1}
+	// the host's own restrictions (any subset) do not change how an st list reads: its values are
+	// always parsed without statements, default-sided dice and bitwise operators
+	cfg := Cfg{Seed: r.U64() | 1, NoStmts: r.P(1, 3), NoNDice: r.P(1, 3), NoBitwise: r.P(1, 3)}
 	vm := cfg.NewVM()
 	vm.Attrs.Store("力量", ds.NewIntVal(50))
 	var kept []*ds.VMValue
